@@ -86,14 +86,31 @@ def orders_of(case):
     return list(rec(list(range(n))))
 
 
-def init_from_nm(nm, u_now):
+_KNOWN = {"alpha_mart", "betting_mart", "kaplan_kolmogorov", "kaplan_markov", "kaplan_wald", "wald_sprt",
+          "fixed_alternative_mean", "shrink_trunc", "optimal_comparison", "fixed_bet", "agrapa"}
+
+
+def _fname(f, fallback):
+    """the library function behind a NonnegMean's test / estim / bet attribute: by name when the attribute is the bound
+    method itself, else (a wrapper around it) what the case asked for"""
+    n = getattr(f, "__name__", None)
+    if n in _KNOWN:
+        return n
+    n = getattr(getattr(f, "__wrapped__", None), "__name__", None)
+    return n if n in _KNOWN else fallback
+
+
+def init_from_nm(nm, u_now, spec=None):
+    spec = spec or {}
     kw = {}
     for k in KW_KEYS:
         v = nm.__dict__.get(k)
         if v is not None:
             kw[k] = fr(v)
     N = None if (nm.N is None or (isinstance(nm.N, float) and math.isinf(nm.N))) else int(nm.N)
-    return {"test": nm.test.__name__, "estim": nm.estim.__name__, "bet": nm.bet.__name__, "u": fr(u_now), "N": N,
+    return {"test": _fname(nm.test, spec.get("test") or "alpha_mart"),
+            "estim": _fname(nm.estim, spec.get("estim") or "fixed_alternative_mean"),
+            "bet": _fname(nm.bet, spec.get("bet") or "fixed_bet"), "u": fr(u_now), "N": N,
             "t": fr(nm.t), "ro": bool(nm.random_order), "kw": kw, "u_now": None}
 
 
@@ -112,7 +129,8 @@ def describe(case):
                 d, u = asn.mvrs_to_data([mvrs[i]], [cvrs[i]] if comparison else None)
                 assert len(d) in (0, 1)
                 vals.append(fr(d[0]) if len(d) else None)
-            asns.append({"name": name, "vals": vals, "init": init_from_nm(asn.test, u)})
+            spec = next((c for c in case["contests"] if c["id"] == cid), {})
+            asns.append({"name": name, "vals": vals, "init": init_from_nm(asn.test, u, spec)})
         out.append({"id": cid, "limit": fr(con.risk_limit), "assertions": asns})
     return out
 
